@@ -114,7 +114,9 @@ pub fn run_model(
                     }
                 }
             }
-            Ev::Deliver { t, src, dst, bytes, dst_kind: EpKind::Real, .. } if *dst == node => {
+            // processing order: the instant the node's recv_from returned the datagram (a datagram
+            // delivered while the handler is busy is processed after the sends the handler makes first)
+            Ev::Recv { t, src, dst, bytes, .. } if *dst == node => {
                 let m = match Msg::parse(bytes) {
                     Some(m) => m,
                     None => continue,
